@@ -16,6 +16,11 @@ CHECKS = {
         technique="TLA+ model of the ring log (Backlog.tla) with the contract as invariants checked by TLC; TLC-simulated behaviours replayed lock-step into the real backlog via gate hooks; recorded hook traces validated by TLC (BacklogTrace)",
         text="TLC checks on the as-implemented ring model, for all interleavings of a writer and two readers with several wrap-arounds, that reads return exactly the ids written at the offset, invalid-offset is reported exactly when the offset is overwritten or ahead, readers wait only at the head of an open log and every write/close owes each waiting reader a wake-up; model behaviours are driven through the real backlog in lock-step and every recorded event of lock-step and free runs is checked by TLC against the contract.",
         note="Go runtime sync.Cond semantics; behaviour after Close beyond waking waiters with an error is not constrained; lock-step uses alignment-unit sizes, byte-granular sizes only in free runs."),
+    "C15": dict(
+        level="model_checking", design="DESIGN.md 4/C15",
+        technique="TLA+ reference definition (Slot.tla: bit-serial CRC16 + hash-tag rule, ASSUME-checked) evaluated by TLC on every recorded observation of the real KeyToSlot / CRC16 copies / slot-range key searches (trace validation, SlotTrace.tla)",
+        text="The property is a functional definition; Slot.tla states it, TLC checks the published vectors and then judges every observation the driver records from the real code: exhaustively all brace layouts up to length 7 (21 845 keys), random binary keys, and the keys chosen for slot ranges (thorough: all 16 384 single-slot ranges), including that checkpoint keys are excluded by the real key filter.",
+        note="TLC is the only oracle; exhaustiveness is over brace layouts with filler letters a/b, longer/binary keys are sampled."),
 }
 
 NOT_YET = "check not built yet in this session (work in progress; see DESIGN.md section 7 for the order)"
